@@ -42,13 +42,17 @@ def canonical(u, w):
 
 
 _UNP = None
+_N = [0]
 
 
 def schema_reports(pic_text, usage_name):
     """maxLength, minLength, location size, record end, Struct.calcsize, TextUnpacker.calcsize"""
     from stingray.cobol_parser import schema_iter
     from stingray.schema_instance import SchemaMaker, EBCDIC, Struct, TextUnpacker, LocationMaker
-    text = ("       01  REC.\n           05  FLD\n"
+    # data names rotate through a pool that includes names beginning with a USAGE keyword (explicit USAGE must win)
+    _N[0] += 1
+    FLD = NAMES[_N[0] % len(NAMES)]
+    text = ("       01  REC.\n" f"           05  {FLD}\n"
             f"               PIC {pic_text}\n               USAGE {usage_name}.\n")
     state = {}
     def load():
@@ -60,7 +64,7 @@ def schema_reports(pic_text, usage_name):
     if r[0] != 0:
         return [r] * 6
     js, schema = state["js"], state["schema"]
-    fld = js["properties"]["FLD"]
+    fld = js["properties"][FLD]
     out = [rep(lambda: fld["maxLength"]), rep(lambda: fld["minLength"])]
     # ONE long-lived unpacker for the whole run (as a long-lived workbook has): per-unpacker caches that
     # outlive a schema show up as widths of unrelated fields
@@ -70,10 +74,10 @@ def schema_reports(pic_text, usage_name):
     unp = _UNP
     def loc():
         state["loc"] = LocationMaker(unp, schema).from_schema()
-        return state["loc"].properties["FLD"].size
+        return state["loc"].properties[FLD].size
     out.append(rep(loc))
     out.append(rep(lambda: state["loc"].end))
-    fschema = schema.properties["FLD"]
+    fschema = schema.properties[FLD]
     out.append(rep(lambda: Struct().calcsize(fschema)))
     out.append(rep(lambda: TextUnpacker().calcsize(fschema)))
     return out
